@@ -8,7 +8,7 @@ DECIDED = ("ownership pairing: R12.1 the guard built by every install root recor
            "the same installation (or (null, 0) where nothing is mapped); R12.2 the guard's destructor releases (self.ptr, self.size) exactly "
            "once on every normal path with a non-null pointer and never with a null one, the guard type is neither Clone nor Copy and is "
            "constructed at one site only; R12.3 the release primitive has no call site outside the allocator's reject edge and the "
-           "destructor; R12.4 on every normal path of an install root the allocation result reaches the stored guard (with C02 R2.3/R2.4: "
+           "destructor; R12.5 every mapping the placement search obtains is returned or released before the next probe (C11 R11.1/R11.2); R12.4 on every normal path of an install root the allocation result reaches the stored guard (with C02 R2.3/R2.4: "
            "every guard is dropped exactly once when the injector goes away)")
 NOT_DECIDED = "a mapping left behind by an installation that fails after allocating (outside the property's 'successful installation')"
 
@@ -118,6 +118,10 @@ def run(ck, models, tier):
             # R12.4 the release comes after the restore
             k4 = restore_before_release(ck, tm, g, "R12.4")
             ck.floor("R12.4", "drop-paths-with-restore-and-release", k4, 1, tm.target)
+            # R12.5 "the executable anonymous mappings are the same after any number of cycles": every mapping the placement search obtains is
+            # either the one it returns or released before the next probe (C11 R11.1/R11.2) - a probe that is neither stays mapped for ever
+            from .c11 import allocator_obligations
+            allocator_obligations(ck, tm, lambda r: "R12.5" if r in ("R11.1", "R11.2") else None)
         # not Clone / Copy, single construction site, fields never assigned
         ck.ob("R12.2", "guard-not-clone", tm.target, not tm.facts.has_impl("std::clone::Clone", g.adt) and not tm.facts.has_impl("std::marker::Copy", g.adt),
               "%s implements Clone: %s, Copy: %s" % (short(g.adt), tm.facts.has_impl("std::clone::Clone", g.adt), tm.facts.has_impl("std::marker::Copy", g.adt)))
